@@ -232,7 +232,7 @@ func c06Run(in *c06Input) (*c06Obs, bool) {
 	h := bstream.HandlerFunc(func(blk *pbbstream.Block, obj interface{}) error {
 		so := obj.(c06Step)
 		c := so.Cursor()
-		ev := fkEvent{Step: int(so.Step()), Blk: fkFromPB(blk), CBlk: fkRefOf(c.Block), Head: fkRefOf(c.HeadBlock), Lib: fkRefOf(c.LIB)}
+		ev := fkEvent{Step: int(so.Step()), Blk: fkFromPB(blk), CBlk: fkCursorBlk(c, so.Step()), Head: fkRefOf(c.HeadBlock), Lib: fkRefOf(c.LIB), CStep: int(c.Step)}
 		if j := so.ReorgJunctionBlock(); j != nil && so.Step() == bstream.StepUndo {
 			r := fkRefOf(j)
 			ev.Junc = &r
